@@ -31,6 +31,14 @@ mod ui;
 mod validity;
 
 
+// Exposure of the status and metrics renderers for verification harnesses.
+#[cfg(routinator_verif)]
+pub use self::status::verif_api_status_body;
+#[cfg(routinator_verif)]
+pub use self::metrics::verif_metrics_body;
+#[cfg(routinator_verif)]
+pub use self::metrics::verif_sample_line;
+
 // Exposure of the request dispatcher for verification harnesses.
 #[cfg(routinator_verif)]
 pub mod verif {
